@@ -535,6 +535,9 @@ func (p *Prog) mayWriteParam(fn *ssa.Function, i int, depth int) bool {
 	if depth == 0 {
 		return true
 	}
+	if _, isIface := fn.Params[i].Type().Underlying().(*types.Interface); isIface {
+		return true // written through reflection / type switches: not tracked
+	}
 	key := fmt.Sprintf("%p/%d", fn, i)
 	if p.writeMemo == nil {
 		p.writeMemo = map[string]int{}
@@ -583,6 +586,16 @@ func (p *Prog) mayWriteParam(fn *ssa.Function, i int, depth int) bool {
 					}
 				case *ssa.MakeInterface:
 					if derived[x.X] {
+						derived[v] = true
+						changed = true
+					}
+				case *ssa.TypeAssert:
+					if derived[x.X] {
+						derived[v] = true
+						changed = true
+					}
+				case *ssa.Extract:
+					if derived[x.Tuple] {
 						derived[v] = true
 						changed = true
 					}
